@@ -90,7 +90,7 @@ def run(ctx, log):
                  "functie f(p) { stel l1 = 1; stel l2 = 2; functie g(q) { l2 + q } g(p) } f(5)", "functie f(p) { functie g() { functie h() { p } h() } g() } f(5)"]
     wv_ = []
     ends_, _ = progcheck.gen_sources(ctx, 150 if ctx.quick else 3000, with_value_out=wv_, max_depth=3, end_with_statement=1.0)
-    extra_nc += ends_ + ["functie kwadraat(n) { n * n }; [kwadraat(2), kwadraat(3), \"klaar\"]; stel laatste = kwadraat(4)", "functie niets(x) { stel l = x }; [1.5, \"s\"]; stel u = niets(2)", "\"de waarde\"; stel a = 1; functie leeg() { } leeg(); stel b = leeg()"]
+    extra_nc += ends_ + ["functie kwadraat(n) { n * n }; [kwadraat(2), kwadraat(3), \"klaar\"]; stel laatste = kwadraat(4)", "functie niets(x) { stel l = x }; [1.5, \"s\"]; stel u = niets(2)", "functie leeg() { }; \"de waarde\"; stel a = 1; stel c = leeg(); stel b = leeg()"]
     for prof in ("release", "debug"):
         for x, o in zip(extra_nc, vlib.nlh("eval", ["30000 " + vlib.hexs(x) for x in extra_nc], tag="c05nc", profile=prof, timeout=900)):
             ctx.seen(("no-crash", x, prof))
